@@ -2660,6 +2660,10 @@ func (p *Parser) evaluateSubscript(ctx context) (Expression, error) {
 	}
 
 	if !isSlice {
+		// A single index has no separate end-index to avoid evaluating the index expression twice.
+		if !gotRange {
+			endIndex = nil
+		}
 		return StringSubscript{
 			value:      value,
 			startIndex: startIndex,
